@@ -213,6 +213,9 @@ def execute(case: dict) -> dict:
         seg = max(plan) if plan else len(wire_body) + 512
         # high water (2L) + one decompress call (L) + whatever one wire segment carries undecoded
         bound = 4 * L + 2048 + slack + seg
+        if case.get("mode") == "readline":
+            # a line reader may hold one line of up to the line limit (= high water, 2L) in its hands on top of the buffer
+            bound += 3 * L
         ce = b"" if coding == "identity" else f"Content-Encoding: {wire_coding(coding, case.get('spelling', 0))}\r\n".encode()
         consumed = [0]
         result: dict = {}
@@ -233,6 +236,17 @@ def execute(case: dict) -> dict:
                         for _ in range(case.get("pause", 0)):
                             await asyncio.sleep(0)
                     return
+                elif mode == "readline":
+                    # line-oriented consumers (readline / async for line / the multipart reader): a body without a separator
+                    # ends in LineTooLong - after a bounded amount of decoding, not after all of it
+                    from aiohttp.http_exceptions import LineTooLong
+
+                    try:
+                        chunk = await stream.readline()
+                    except (LineTooLong, ValueError) as e:
+                        result["line_too_long"] = type(e).__name__
+                        result["decoded_at_giveup"] = getattr(stream, "total_bytes", 0) - consumed[0]
+                        return
                 else:
                     chunk = await stream.read(r if r else 1)
                 if not chunk:
@@ -325,7 +339,7 @@ def execute(case: dict) -> dict:
             loop.step()
             it += 1
             content = holder.get("content")
-            if content is not None:
+            if content is not None and not result.get("line_too_long"):  # once the line reader gave up the rest is drained, not held
                 resident = getattr(content, "total_bytes", 0) - consumed[0]
                 stats["max_resident"] = max(stats["max_resident"], resident)
                 tr = holder.get("transport")
@@ -333,7 +347,8 @@ def execute(case: dict) -> dict:
                     high = content.get_read_buffer_limits()[1]
                 except AttributeError:  # EMPTY_PAYLOAD has no buffer
                     high = None
-                if (tr is not None and high is not None and resident > high and not tr.reading_paused and not tr.closing and not tr.lost_called
+                if (case.get("mode") != "readline"  # bytes a line reader has already taken out of the buffer are not "buffered"
+                        and tr is not None and high is not None and resident > high and not tr.reading_paused and not tr.closing and not tr.lost_called
                         and not content.is_eof() and content.exception() is None):
                     raise Violation("not-paused-over-high-water", f"{resident} decoded bytes buffered > high water {high} and the body is not complete, "
                                     f"but reading from the transport is not paused; coding={coding} framing={case['framing']} limit={limit}")
@@ -355,6 +370,14 @@ def execute(case: dict) -> dict:
             raise Violation(hyp.exc_key(exc, "exchange-raised"), f"{type(exc).__name__}: {exc!r}"[:300])
 
         # ---- oracle
+        if result.get("line_too_long"):
+            # the line API gave up on an over-long line: only the memory bound applies - including at the moment it gave up
+            # (everything decoded but not handed to the application by then was held in memory)
+            if result.get("decoded_at_giveup", 0) > bound:
+                raise Violation("memory-bound/line-reader", f"{result['decoded_at_giveup']} bytes had been decoded and were held when readline() gave up with "
+                                f"{result['line_too_long']}; read limit {limit}, bound {bound}; coding={coding} framing={case['framing']}")
+            stats["plain"] = plain_len
+            return stats
         if case["side"] == "client" or case.get("server_api") == "stream":
             if isinstance(ref, bytes):
                 if "error" in result:
@@ -388,7 +411,9 @@ def execute(case: dict) -> dict:
             else:
                 if status == 200:
                     len_ref = lenient_decode(enc, coding)
-                    if not (isinstance(len_ref, bytes) and result.get("body") == len_ref):
+                    if not (isinstance(len_ref, bytes) and result.get("body") == len_ref) and result.get("body") != b"".join(members):
+                        # (a corruption that still yields exactly the original bytes - e.g. in a checksum the streaming decoder does
+                        # not verify - delivers nothing wrong)
                         raise Violation(f"corrupt-body-delivered/{coding}/{corr[0] if corr else '?'}", f"server handler got {len(result.get('body') or b'')} bytes from a stream the reference rejects ({ref!r})")
             if "body" in result and len(result["body"]) > cms:
                 raise Violation("client-max-size", f"read() returned {len(result['body'])} bytes > client_max_size {cms}")
@@ -435,7 +460,7 @@ def cases(draw, side: str):
     case = {
         "side": side, "shape": shape, "size": size, "k": draw(st.integers(0, 3)), "coding": coding, "spelling": draw(st.sampled_from([0, 0, 0, 1, 2])), "framing": framing,
         "chunk": draw(st.sampled_from([1, 7, 100, 1000, 8192])), "limit": limit,
-        "mode": draw(st.sampled_from(["read", "read", "readany", "iter"])),
+        "mode": draw(st.sampled_from(["read", "read", "readany", "iter", "readline"])),
         "reads": draw(st.lists(st.sampled_from([1, 5, 100, 4096, 70000, -1]), min_size=1, max_size=3)),
         "pause": draw(st.sampled_from([0, 0, 1, 3])),
         "s2c": draw(st.sampled_from([[], [1460], [100, 3], [65536], [7]])),
